@@ -283,6 +283,17 @@ class EvalMixin:
 
     def get_attr(self, st, base, attr, node=None):
         k = unopt(base.k)
+        if k.head == "class":
+            # a class-level constant (e.g. a module's lark parser object): one fixed opaque value per (class, attribute),
+            # declared in the sidecar (CLASS_ATTRS); the process-level lemma (no class attribute is ever written) is
+            # checked structurally under C15 / C08
+            decl = getattr(self.uni, "class_attrs", {}).get(k[1], {})
+            if attr not in decl:
+                raise OutOfSubset("class attribute %s.%s not declared in sidecar" % (k[1], attr))
+            ak = kind_of_annotation(decl[attr], self.uni)
+            t = z3.Const("clsattr_%s_%s" % (k[1], attr), V)
+            assume_typed(st, t, ak)
+            return SV(t, ak)
         if k.head == "obj":
             fk = self.uni.field_kind(k[1], attr)
             if fk is None:
